@@ -63,7 +63,7 @@ def exceptions_of(n, fi, summary, res):
         todo.extend(ast.iter_child_nodes(x))
         if isinstance(x, ast.Subscript) and isinstance(x.ctx, ast.Load) and not isinstance(x.slice, ast.Slice):
             # data-dependent lookup failures: only when the key or the container derives from the hostile text
-            if any(isinstance(y, ast.Name) and y.id in tainted for y in ast.walk(x)):
+            if any(isinstance(y, ast.Name) and y.id in tainted for y in ast.walk(x)) and not _membership_guarded(x) and not _fixed_shape_index(x, fi):
                 out.add("KeyError")
                 out.add("IndexError")
         if isinstance(x, ast.BinOp) and isinstance(x.op, (ast.Div, ast.FloorDiv, ast.Mod)) and not _nonzero(x.right):
@@ -121,6 +121,49 @@ def _derived_from(fi, names):
                     out.add(st.targets[0].id)
                     changed = True
     return out
+
+
+def _fixed_shape_index(x, fi):
+    """t[0] / t[1] on a value that is not a variable-length result of splitting/searching the input"""
+    if not (isinstance(x.slice, ast.Constant) and isinstance(x.slice.value, int)):
+        return False
+    if not isinstance(x.value, ast.Name):
+        return False
+    for st in ast.walk(fi.node):
+        if isinstance(st, ast.Assign) and any(isinstance(t, ast.Name) and t.id == x.value.id for t in st.targets):
+            for c in ast.walk(st.value):
+                if isinstance(c, ast.Call) and isinstance(c.func, ast.Attribute) and c.func.attr in ("findall", "split", "rsplit", "splitlines", "groups", "finditer"):
+                    return False
+    return True
+
+
+def _membership_guarded(x):
+    """d[k] lies in the body of `if k in d` (or after `if k not in d: return/raise/continue`)"""
+    key, cont = src(x.slice), src(x.value)
+
+    def tests_membership(t, positive=True):
+        for c in ast.walk(t):
+            if isinstance(c, ast.Compare) and len(c.ops) == 1 and src(c.left) == key and src(c.comparators[0]) == cont:
+                if isinstance(c.ops[0], ast.In if positive else ast.NotIn):
+                    return True
+        return False
+    q, prev = parent(x), x
+    while q is not None and not isinstance(q, (ast.FunctionDef, ast.Lambda)):
+        if isinstance(q, ast.If) and prev in q.body and tests_membership(q.test, True):
+            return True
+        if isinstance(q, ast.IfExp) and prev is q.body and tests_membership(q.test, True):
+            return True
+        body = None
+        for fld in ("body", "orelse", "finalbody"):
+            b = getattr(q, fld, None)
+            if isinstance(b, list) and prev in b:
+                body = b
+        if body is not None:
+            for st in body[: body.index(prev)]:
+                if isinstance(st, ast.If) and tests_membership(st.test, False) and st.body and isinstance(st.body[-1], (ast.Return, ast.Raise, ast.Continue, ast.Break)):
+                    return True
+        prev, q = q, parent(q)
+    return False
 
 
 def _guarded_subscript(x):
